@@ -65,7 +65,28 @@ func checkC18(p *Prog, r *Report) {
 			rSan.Bad(c+":element-store", posOf(st), "an element of the rows is assigned %s", describeValue(st.Val))
 		}
 	})
+	tfuncs := templateFuncs(p, sffPkg, "funcListTemplate")
+	var tnames []string
+	for n := range tfuncs {
+		tnames = append(tnames, n)
+	}
+	quoteFn := "" /* template function which single-quotes a whole row */
+	if nil == escStore {
+		if text, _ := templateConst(p, sffPkg, "funcListTemplate"); "" != text {
+			if toks, err := flattenTemplate("funcList", text, tnames...); nil == err {
+				for _, t := range toks {
+					if "." == t.Field && t.Range && "" != t.Func {
+						if f := tfuncs[t.Func]; nil != f && isShellSingleQuoter(p, f) {
+							quoteFn = t.Func
+						}
+					}
+				}
+			}
+		}
+	}
 	switch {
+	case nil == escStore && "" != quoteFn:
+		rSan.OK(c+":escape", posOf(exec), "every row is printed through the template function %s, which returns the row as one single-quoted shell word (' → '\\'' inside quotes)", quoteFn)
 	case nil == escStore:
 		rSan.Bad(c+":escape", posOf(exec), "the rows executed against the template are never escaped in place: a single quote in a TABDOC line ends the quoting and the rest runs as shell code")
 	default:
@@ -157,7 +178,7 @@ func checkC18(p *Prog, r *Report) {
 		rCtx.Unproven("funcListTemplate", token.NoPos, "template constant not found")
 	} else {
 		r.Saw("template funcListTemplate")
-		toks, err := flattenTemplate("funcList", text)
+		toks, err := flattenTemplate("funcList", text, tnames...)
 		if nil != err {
 			rCtx.Bad("funcListTemplate:parse", tpos, "%s", err)
 		} else {
@@ -169,6 +190,16 @@ func checkC18(p *Prog, r *Report) {
 				}
 				cc := fmt.Sprintf("funcListTemplate:action#%d{{%s}}", i, t.Field)
 				switch {
+				case "." == t.Field && t.Range && "" != t.Func:
+					n++
+					switch {
+					case t.Func != quoteFn:
+						rCtx.Bad(cc, tpos, "the row is printed through template function %s, which is not a whole-word single-quoter", t.Func)
+					case ctxBare != ctx[i]:
+						rCtx.Bad(cc, tpos, "the row, already quoted by %s, is printed %s: the quotes it adds are then literal or close the surrounding quotes", t.Func, ctx[i])
+					default:
+						rCtx.OK(cc, tpos, "row printed as a single-quoted word made by %s", t.Func)
+					}
 				case "." == t.Field && t.Range:
 					n++
 					if ctxSingle == ctx[i] {
@@ -187,7 +218,7 @@ func checkC18(p *Prog, r *Report) {
 			}
 			/* The literal before the action ends with "echo '" on its own line. */
 			txt := renderToks(toks)
-			if strings.Contains(txt, "echo '⟦.⟧'\n") {
+			if strings.Contains(txt, "echo '⟦.⟧'\n") || ("" != quoteFn && strings.Contains(txt, "echo ⟦.⟧\n")) {
 				rCtx.OK("funcListTemplate:one-echo-per-row", tpos, "echo '<row>' on a line of its own")
 			} else {
 				rCtx.Bad("funcListTemplate:one-echo-per-row", tpos, "rows are not emitted as echo '<row>' on lines of their own")
@@ -201,15 +232,31 @@ func checkC18(p *Prog, r *Report) {
 	}
 
 	/* 3. Rows. */
-	rs := valueRoots(data, func(n string) bool {
+	var dedupe *dedupeLoop
+	rowsV := data
+	if dl := adjacentDedupe(data); nil != dl {
+		/* A hand-written "keep a row unless it equals the last one kept". */
+		dedupe, rowsV = dl, dl.Src
+	}
+	rs := valueRoots(rowsV, func(n string) bool {
 		return "slices.Compact" == n || "slices.DeleteFunc" == n
 	})
 	var split *ssa.Call
+	fields := false
 	okRoots := true
 	for _, x := range rs {
 		switch {
 		case "call" == x.Kind && "strings.Split" == x.Callee:
 			split = x.V.(*ssa.Call)
+		case "call" == x.Kind && "strings.FieldsFunc" == x.Callee:
+			/* Maximal runs of non-newline bytes: newline-free and
+			non-empty by construction. */
+			fc := x.V.(*ssa.Call)
+			if f, _ := closureOf(fc.Common().Args[1]); nil != f && isNewlinePredicate(f) {
+				split, fields = fc, true
+			} else {
+				okRoots = false
+			}
 		case "other" == x.Kind:
 			if _, isFn := x.V.(*ssa.Function); isFn {
 				continue
@@ -222,20 +269,23 @@ func checkC18(p *Prog, r *Report) {
 			okRoots = false
 		}
 	}
-	if nil != split && okRoots {
+	switch {
+	case nil != split && okRoots && fields:
+		rRows.OK(c+":newline-free", posOf(split), "rows are the newline-free fields of strings.FieldsFunc(table, r == '\\n')")
+	case nil != split && okRoots:
 		if s, ok := constString(split.Common().Args[1]); ok && "\n" == s {
 			rRows.OK(c+":newline-free", posOf(split), "rows are the pieces of strings.Split(table, \"\\n\")")
 		} else {
 			rRows.Bad(c+":newline-free", posOf(split), "rows are not split at newlines")
 		}
-	} else {
+	default:
 		rRows.Bad(c+":newline-free", posOf(exec), "the rows do not come from strings.Split(…, \"\\n\") alone (%s): a row could span lines", rootsString(rs))
 	}
 	var srt, cmp, del *ssa.Call
 	eachInstr(gf, func(i ssa.Instruction) {
 		if cc, ok := i.(*ssa.Call); ok {
 			switch calleeName(cc.Common()) {
-			case "slices.Sort":
+			case "slices.Sort", "sort.Strings":
 				srt = cc
 			case "slices.Compact":
 				cmp = cc
@@ -244,14 +294,20 @@ func checkC18(p *Prog, r *Report) {
 			}
 		}
 	})
-	if nil != srt && nil != cmp && instrDominates(srt, cmp) && (nil == escStore || instrDominatesLoop2(cmp, escStore)) {
-		rRows.OK(c+":sorted-distinct", posOf(cmp), "slices.Sort then slices.Compact, before escaping")
-	} else {
+	switch {
+	case nil != srt && nil != cmp && instrDominates(srt, cmp) && (nil == escStore || instrDominatesLoop2(cmp, escStore)):
+		rRows.OK(c+":sorted-distinct", posOf(cmp), "sorted, then slices.Compact, before escaping")
+	case nil != srt && nil != dedupe && srt.Common().Args[0] == dedupe.Src && instrDominates(srt, dedupe.Append) && (nil == escStore || !canReach(locOf(escStore), dedupe.Append)):
+		rRows.OK(c+":sorted-distinct", posOf(dedupe.Append), "sorted, then a loop keeping each row unless it equals the last one kept")
+	default:
 		rRows.Bad(c+":sorted-distinct", posOf(exec), "rows are not sorted and de-duplicated before being escaped")
 	}
-	if nil != del {
+	switch {
+	case nil != del:
 		rRows.OK(c+":non-empty", posOf(del), "empty rows are removed")
-	} else {
+	case fields:
+		rRows.OK(c+":non-empty", posOf(split), "fields are never empty")
+	default:
 		rRows.Bad(c+":non-empty", posOf(exec), "empty rows (the trailing piece after the last newline) are not removed: an empty echo row is printed")
 	}
 	/* Self row: a Fprintf to the tab-writer with ListFuncName before the scan. */
@@ -311,7 +367,7 @@ func checkC18(p *Prog, r *Report) {
 			return
 		}
 		switch calleeName(cc.Common()) {
-		case "strings.HasPrefix":
+		case "strings.HasPrefix", "strings.CutPrefix":
 			if s, ok := constString(cc.Common().Args[1]); ok && "# TABDOC:" == s {
 				hasPrefix = true
 			}
@@ -431,4 +487,288 @@ func checkResultOwned(fn *ssa.Function, ru *Rule) {
 	} else if 0 == bad {
 		ru.OK(fnName(fn)+":result-buffer", fn.Pos(), "the result is rendered into buffers allocated in this call (%d success returns)", n)
 	}
+}
+
+// templateFuncs returns the functions registered with Funcs(template.FuncMap{
+// "name": fn}) in the initialiser of the template variable.
+func templateFuncs(p *Prog, pkgSuffix, varName string) map[string]*ssa.Function {
+	out := map[string]*ssa.Function{}
+	sp := p.SSAPkg[ModPath+"/"+pkgSuffix]
+	if nil == sp {
+		return out
+	}
+	init := sp.Func("init")
+	if nil == init {
+		return out
+	}
+	eachInstr(init, func(i ssa.Instruction) {
+		c, ok := i.(*ssa.Call)
+		if !ok || "(*text/template.Template).Funcs" != calleeName(c.Common()) {
+			return
+		}
+		m, ok := stripConv(resolveCell(c.Common().Args[1]), false).(*ssa.MakeMap)
+		if !ok {
+			return
+		}
+		for _, ref := range *m.Referrers() {
+			mu, ok := ref.(*ssa.MapUpdate)
+			if !ok {
+				continue
+			}
+			name, ok := constString(mu.Key)
+			if !ok {
+				continue
+			}
+			if f, _ := closureOf(stripConv(mu.Value, false)); nil != f {
+				out[name] = f
+			}
+		}
+	})
+	return out
+}
+
+// isShellSingleQuoter: f(s string) string returns "'" + E(s) + "'" on every
+// path, where E replaces every ' by '\'' and nothing else.
+func isShellSingleQuoter(p *Prog, f *ssa.Function) bool {
+	if 1 != len(f.Params) || 1 != f.Signature.Results().Len() {
+		return false
+	}
+	n, okAll := 0, true
+	eachInstr(f, func(i ssa.Instruction) {
+		ret, ok := i.(*ssa.Return)
+		if !ok {
+			return
+		}
+		n++
+		/* ("'" + X) + "'" */
+		outer, ok := ret.Results[0].(*ssa.BinOp)
+		if !ok || token.ADD != outer.Op {
+			okAll = false
+			return
+		}
+		q2, ok2 := constString(outer.Y)
+		inner, ok3 := outer.X.(*ssa.BinOp)
+		if !ok2 || "'" != q2 || !ok3 || token.ADD != inner.Op {
+			okAll = false
+			return
+		}
+		q1, ok4 := constString(inner.X)
+		if !ok4 || "'" != q1 {
+			okAll = false
+			return
+		}
+		esc, ok := inner.Y.(*ssa.Call)
+		if !ok {
+			okAll = false
+			return
+		}
+		switch calleeName(esc.Common()) {
+		case "strings.ReplaceAll":
+			a, _ := constString(esc.Common().Args[1])
+			b, _ := constString(esc.Common().Args[2])
+			if esc.Common().Args[0] != ssa.Value(f.Params[0]) || "'" != a || `'\''` != b {
+				okAll = false
+			}
+		case "(*strings.Replacer).Replace":
+			prs, ok := replacerPairs(p, esc.Common().Args[0])
+			if !ok || 2 != len(prs) || "'" != prs[0] || `'\''` != prs[1] || esc.Common().Args[1] != ssa.Value(f.Params[0]) {
+				okAll = false
+			}
+		default:
+			okAll = false
+		}
+	})
+	return okAll && n > 0
+}
+
+// isNewlinePredicate: f(r rune) bool returns r == '\n'.
+func isNewlinePredicate(f *ssa.Function) bool {
+	if 1 != len(f.Params) {
+		return false
+	}
+	n, ok := 0, true
+	eachInstr(f, func(i ssa.Instruction) {
+		ret, isRet := i.(*ssa.Return)
+		if !isRet || 1 != len(ret.Results) {
+			return
+		}
+		n++
+		bo, isB := ret.Results[0].(*ssa.BinOp)
+		if !isB || token.EQL != bo.Op {
+			ok = false
+			return
+		}
+		x, y := bo.X, bo.Y
+		if _, isC := x.(*ssa.Const); isC {
+			x, y = y, x
+		}
+		k, isC := constInt(y)
+		if x != ssa.Value(f.Params[0]) || !isC || 10 != k {
+			ok = false
+		}
+	})
+	return ok && 1 == n
+}
+
+// dedupeLoop is a recognised "compact adjacent duplicates" loop.
+type dedupeLoop struct {
+	Src    ssa.Value /* the (sorted) slice ranged over */
+	Append *ssa.Call
+}
+
+// adjacentDedupe recognises
+//
+//	out := src[:0] (or nil)
+//	for _, e := range src { if len(out) != 0 && out[len(out)-1] == e { continue }; out = append(out, e) }
+//
+// when v is out after the loop.
+func adjacentDedupe(v ssa.Value) *dedupeLoop {
+	ph, ok := v.(*ssa.Phi)
+	if !ok {
+		return nil
+	}
+	fn := ph.Parent()
+	/* The only append feeding the accumulator. */
+	var app *ssa.Call
+	n := 0
+	eachInstr(fn, func(i ssa.Instruction) {
+		c, ok := i.(*ssa.Call)
+		if !ok {
+			return
+		}
+		if b, isB := c.Common().Value.(*ssa.Builtin); !isB || "append" != b.Name() {
+			return
+		}
+		if accumulates(c.Common().Args[0], ph) {
+			app = c
+			n++
+		}
+	})
+	if 1 != n {
+		return nil
+	}
+	/* It appends exactly one element: the loop's element of src. */
+	els := variadicElems(app.Common())
+	if 1 != len(els) {
+		return nil
+	}
+	ld, ok := els[0].(*ssa.UnOp)
+	if !ok || token.MUL != ld.Op {
+		return nil
+	}
+	ia, ok := ld.X.(*ssa.IndexAddr)
+	if !ok || !wholeRange(ia.Index, ia.X) {
+		return nil
+	}
+	src := ia.X
+	/* The accumulator starts empty. */
+	startsEmpty := false
+	for _, l := range phiLeaves(ph) {
+		switch x := l.V.(type) {
+		case *ssa.Slice:
+			if k, isC := constInt(x.High); isC && 0 == k && nil == x.Low {
+				startsEmpty = true
+				continue
+			}
+			return nil
+		case *ssa.Const:
+			if x.IsNil() {
+				startsEmpty = true
+				continue
+			}
+			return nil
+		case *ssa.Call:
+			if x == app {
+				continue
+			}
+			return nil
+		default:
+			return nil
+		}
+	}
+	if !startsEmpty {
+		return nil
+	}
+	/* The append is skipped exactly when the last kept element equals e:
+	some test "last == e" whose true edge cannot reach the append within
+	the iteration, and the append is reachable from its false edge. */
+	guarded := false
+	for _, b := range fn.Blocks {
+		ifi := blockIf(b)
+		if nil == ifi {
+			continue
+		}
+		bo, ok := ifi.Cond.(*ssa.BinOp)
+		if !ok || token.EQL != bo.Op {
+			continue
+		}
+		var other ssa.Value
+		switch {
+		case bo.X == ssa.Value(ld):
+			other = bo.Y
+		case bo.Y == ssa.Value(ld):
+			other = bo.X
+		default:
+			continue
+		}
+		/* other = acc[len(acc)-1] */
+		ol, ok := other.(*ssa.UnOp)
+		if !ok || token.MUL != ol.Op {
+			continue
+		}
+		oia, ok := ol.X.(*ssa.IndexAddr)
+		if !ok || !accumulates(oia.X, ph) {
+			continue
+		}
+		sub, ok := oia.Index.(*ssa.BinOp)
+		if !ok || token.SUB != sub.Op {
+			continue
+		}
+		if one, isC := constInt(sub.Y); !isC || 1 != one {
+			continue
+		}
+		lc, ok := sub.X.(*ssa.Call)
+		if !ok {
+			continue
+		}
+		if bi, isB := lc.Common().Value.(*ssa.Builtin); !isB || "len" != bi.Name() || !accumulates(lc.Common().Args[0], ph) {
+			continue
+		}
+		header := ph.Block()
+		stopAtHeader := func(i ssa.Instruction) bool { return i.Block() == header }
+		skips := nil == (reachQ{From: Loc{b.Succs[0], -1}, Target: func(i ssa.Instruction) bool { return i == ssa.Instruction(app) }, Block: stopAtHeader}).run()
+		keeps := nil != (reachQ{From: Loc{b.Succs[1], -1}, Target: func(i ssa.Instruction) bool { return i == ssa.Instruction(app) }, Block: stopAtHeader}).run()
+		if skips && keeps {
+			guarded = true
+		}
+	}
+	if !guarded {
+		return nil
+	}
+	return &dedupeLoop{Src: src, Append: app}
+}
+
+// accumulates: v is the accumulator phi or a value it takes within the loop
+// (a phi of it and its own append).
+func accumulates(v ssa.Value, acc *ssa.Phi) bool {
+	seen := map[ssa.Value]bool{}
+	var walk func(v ssa.Value) bool
+	walk = func(v ssa.Value) bool {
+		if v == ssa.Value(acc) {
+			return true
+		}
+		if seen[v] {
+			return false
+		}
+		seen[v] = true
+		if p, ok := v.(*ssa.Phi); ok {
+			for _, e := range p.Edges {
+				if walk(e) {
+					return true
+				}
+			}
+		}
+		return false
+	}
+	return walk(v)
 }
